@@ -1068,6 +1068,8 @@ void scen_lifecycle() {
   std::set<int> fds_before = open_fds();
   std::vector<string> cmd = {g_child_path, s.text};
   std::vector<int> polled;
+  bool alive_at_destruction = false;
+  uint64_t t_destruct = 0, stall_before = 0;
   int waited = -2, waited_again = -2;
   bool threw = false;
   string what;
@@ -1086,6 +1088,9 @@ void scen_lifecycle() {
       waited = sp->wait();
       waited_again = sp->wait(true);
     }
+    alive_at_destruction = g.ch.alive;
+    t_destruct = g.clock;
+    stall_before = g.stall_total;
   } catch (const std::exception& e) {
     threw = true;
     what = e.what();
@@ -1101,6 +1106,17 @@ void scen_lifecycle() {
   bool already_failed = failed();
   reap_leftovers("lifecycle", true);
   if (already_failed || failed()) throw AbortRun();
+  // the destructor of an owner whose child is still running ends that child (kill + reap); it must not
+  // sit there for as long as the child pleases. Generous bound: 10 s of simulated time plus injected stalls.
+  if (!threw && alive_at_destruction && t_destruct) {
+    uint64_t took = g.clock - t_destruct;
+    uint64_t bound = 10000000 + (g.stall_total - stall_before) + g.calls * 50;
+    if (took > bound) {
+      fail("lifecycle/destructor_waited_for_child", s.ignores_term ? "child_ignores_sigterm" : s.family,
+          "~Subprocess took " + std::to_string(took) + " us of simulated time to end a running child" + (s.ignores_term ? " that ignores SIGTERM" : ""));
+    }
+    VS_PROBE("destructor_ended_running_child");
+  }
   if (threw) fail("lifecycle/unexpected_exception", s.family, "Subprocess life cycle threw '" + what.substr(0, 120) + "'");
   int expected_status = c.death_kind == 1 ? (c.death_value << 8) : c.death_value;
   if (close_stdin_and_wait) {
@@ -1181,7 +1197,7 @@ int main(int argc, char** argv) {
       {"child program", "stub: vsim/child.c, a scripted peer that makes one non-blocking step per simulator command"},
       {"scheduling between parent and child, clock, poll timeouts, EINTR/EAGAIN/short transfers", "simulator (link-time wrappers in engines/sim_proc.cc)"}};
   e.expected_probes = {"payload_larger_than_pipe", "output_larger_than_pipe", "clock_jumped_over_child_sleep", "poll_timed_out", "blocking_waitpid", "timeout_killed_child", "check_threw_on_nonzero_status",
-      "child_died_by_own_signal", "child_exited_with_unread_output_in_pipe", "communicate_with_deadline_returned", "communicate_without_deadline_returned", "communicate_deadline_passed", "parent_busy_wait_skipped", "lifecycle_waited", "destructor_killed_running_child", "destructor_found_child_exited", "run_process_called_repeatedly", "grandchild_kept_pipes_open", "sigkill_after_ignored_sigterm"};
+      "child_died_by_own_signal", "child_exited_with_unread_output_in_pipe", "communicate_with_deadline_returned", "communicate_without_deadline_returned", "communicate_deadline_passed", "parent_busy_wait_skipped", "lifecycle_waited", "destructor_killed_running_child", "destructor_found_child_exited", "run_process_called_repeatedly", "grandchild_kept_pipes_open", "sigkill_after_ignored_sigterm", "destructor_ended_running_child"};
   e.expected_faults = {"EINTR@poll", "EINTR@waitpid", "spurious_EAGAIN@read", "spurious_EAGAIN@write", "short_read", "short_write", "parent_stall"};
   return driver_main(argc, argv, e);
 }
